@@ -284,10 +284,10 @@ func (fr *frame) havocByAddrExpr(st *PState, addr ssa.Value, et types.Type) {
 }
 
 type callEff struct {
-	views   []*ViewVal // stores written through views known before the loop
-	unknown bool       // may write anything
-	state   bool       // may write the chain state (not the heaps, not the trace)
-	trace   bool
+	views     []*ViewVal // stores written through views known before the loop
+	unknown   bool       // may write anything
+	state     bool       // may write the chain state (not the heaps, not the trace)
+	trace     bool
 	heapTypes []types.Type // may write objects of these pointee types
 	ghosts    []string     // ghost counters that may change
 }
